@@ -74,6 +74,10 @@ GhostInit(S) ==
     pvGrants |-> {},                      \* <<candidate, term, voter>>: pre-vote grants that reached the candidate
     slog     |-> [n \in S |-> EmptyFn],   \* durable log as of the last state line (dlog moves at store events)
     seenTerm |-> [n \in S |-> 0],         \* highest term n was told about by somebody else
+    rcur     |-> [n \in S |-> 0],         \* user Restore call in progress on n (op id, 0 = none)
+    abOf     |-> EmptyFn,                 \* payload id -> the Restore call that aborted its Apply
+    abOK     |-> {},                      \* payload ids aborted by a Restore that returned nil
+    abApp    |-> {},                      \* <<server, index, id>>: aborted payloads that reached an FSM
     stopAt   |-> -1,                      \* time faults stopped, -1 if not
     probeOK  |-> FALSE ]
 
@@ -251,6 +255,10 @@ RestartPreds(n, pre, post, lg, sn) ==
      \cup (IF post.llog = expLL THEN {} ELSE {<<"C10", "RestartLastLog", <<n, post.llog, expLL>>>>})
      \cup (IF post.lsnap = <<si, SnapTermOf(sn)>> THEN {} ELSE {<<"C10", "RestartLastSnapshot", <<n, post.lsnap, si>>>>})
      \cup (IF <<post.cli, post.cl>> = expCl THEN {} ELSE {<<"C10", "RestartConfiguration", <<n, <<post.cli, post.cl>>, expCl>>>>})
+     \* the configuration it used before going down is still covered by its durable state (entry in the log, or at / below
+     \* the snapshot): it must not come back with an older one
+     \cup (IF again /\ post.cli < pre.cli /\ (pre.cli <= si \/ (pre.cli \in DOMAIN lg /\ lg[pre.cli][2] = "cfg"))
+           THEN {<<"C10", "RestartConfigurationRegressed", <<n, <<pre.cli, pre.cl>>, <<post.cli, post.cl>>, si>>>>} ELSE {})
      \cup (LET E == IF params.ct THEN Max(si, Min(post.dcommit, ll)) ELSE si     \* how far the FSM must have been fed
            IN IF params.norestore \/ (g.fsmLast[n] <= E /\ \A k \in DOMAIN lg : (k > si /\ k <= E /\ lg[k][2] = "cmd") => k <= g.fsmLast[n])
               THEN {} ELSE {<<"C10", "RestartFSMPosition", <<n, g.fsmLast[n], si, E>>>>})
@@ -442,7 +450,9 @@ DoFsm(ln) ==
              \cup (IF i > g.fsmLast[n] THEN {} ELSE {<<"C02", "ApplyOutOfOrder", <<n, i, g.fsmLast[n]>>>>})
              \cup {<<"C02", "SkippedCommand", <<n, k>>>> :
                      k \in {j \in (g.fsmLast[n] + 1)..(i - 1) : j > MaxSet(g.burned) /\ (j \notin DOMAIN g.agreed \/ g.agreed[j][2] = "cmd")}}
+             \cup (IF ln.id \in g.abOK THEN {<<"C02", "AbortedEntryApplied", <<n, i, ln.id>>>>} ELSE {})
     IN /\ g' = [g EXCEPT !.fsmLast[n] = Max(@, i),
+                         !.abApp = IF ln.id \in DOMAIN g.abOf THEN @ \cup {<<n, i, ln.id>>} ELSE @,
                          !.reported = IF i \in DOMAIN @ THEN @ ELSE [p \in {i} |-> e] @@ @]
        /\ Judge(V, {}) /\ Keep
   ELSE IF ln.op = "restore" THEN
@@ -469,6 +479,10 @@ DoSnap(ln) ==
                \cup (IF i \in DOMAIN g.agreed /\ g.agreed[i][1] # ln.term /\ ~isUser THEN {<<"C11", "SnapshotTermWrong", <<n, i, ln.term>>>>} ELSE {})
                \cup (IF isUser \/ <<ln.cfgidx, ln.cfg>> = ec THEN {}
                      ELSE {<<"C11", "SnapshotConfigurationWrong", <<n, i, <<ln.cfgidx, ln.cfg>>, ec>>>>})
+               \* a user Restore takes an index above the supplied snapshot's and above every index this server ever used
+               \cup (LET sidx == IF g.rcur[n] \in DOMAIN g.inv THEN g.inv[g.rcur[n]].sidx ELSE 0
+                     IN IF isUser /\ (i <= LogLast(dlog[n]) \/ i <= sidx \/ i <= obs[n].last)
+                        THEN {<<"C20", "RestoreIndexNotFresh", <<n, i, LogLast(dlog[n]), sidx, obs[n].last>>>>} ELSE {})
      IN /\ g' = [g EXCEPT !.bases = b2, !.burned = d2]
         /\ Judge(V, {}) /\ Keep
   ELSE Quiet /\ Keep /\ UNCHANGED g
@@ -483,12 +497,14 @@ DoStartFail(ln) ==
 DoInvoke(ln) ==
   /\ g' = [g EXCEPT !.inv = [p \in {ln.op} |-> [line |-> l, t |-> ln.t, n |-> ln.n, up |-> (IF Has(ln, "nodeup") THEN ln.nodeup ELSE TRUE),
                                                  term |-> (IF Has(ln, "term") THEN ln.term ELSE 0), kind |-> ln.kind,
-                                                 cl |-> (IF ln.n \in DOMAIN obs THEN obs[ln.n].cl ELSE NoCfg)]] @@ @]
+                                                 cl |-> (IF ln.n \in DOMAIN obs THEN obs[ln.n].cl ELSE NoCfg),
+                                                 sidx |-> (IF Has(ln, "sidx") THEN ln.sidx ELSE 0)]] @@ @,
+                    !.rcur[ln.n] = IF ln.kind = "restore" THEN ln.op ELSE @]
   /\ Quiet /\ Keep
 
 DoReturn(ln) ==
   LET n   == ln.n
-      iv  == IF ln.op \in DOMAIN g.inv THEN g.inv[ln.op] ELSE [line |-> 0, t |-> 0, n |-> n, up |-> TRUE, term |-> 0, kind |-> ln.kind, cl |-> obs[n].cl]
+      iv  == IF ln.op \in DOMAIN g.inv THEN g.inv[ln.op] ELSE [line |-> 0, t |-> 0, n |-> n, up |-> TRUE, term |-> 0, kind |-> ln.kind, cl |-> obs[n].cl, sidx |-> 0]
       ok  == ln.err = ""
       i   == ln.idx
       defFail == ln.err \in {"NotLeader", "EnqueueTimeout", "TransferInProgress"}
@@ -519,8 +535,16 @@ DoReturn(ln) ==
       vMember == IF ln.kind \in {"addvoter", "addnonvoter", "demote", "remove"} /\ ok
                     /\ ~(i \in DOMAIN g.agreed /\ g.agreed[i][2] = "cfg")
                  THEN {<<"C03", "AckedConfigNotCommitted", <<n, ln.op, i>>>>} ELSE {}
-      V == vApply \cup vBarrier \cup vVerify \cup vDown \cup vMember
-  IN /\ g' = [g EXCEPT !.acked = IF ln.kind = "apply" /\ ok THEN @ \cup {<<ln.op, i, l>>} ELSE @,
+      \* a Restore that returns nil supersedes the calls it aborted: they were never committed and no FSM may see them
+      isAb   == ln.kind = "apply" /\ ln.err = "AbortedByRestore" /\ g.rcur[n] # 0
+      abOf2  == IF isAb THEN [p \in {ln.arg} |-> g.rcur[n]] @@ g.abOf ELSE g.abOf
+      okR    == ln.kind = "restore" /\ ok
+      newOK  == IF okR THEN {x \in DOMAIN g.abOf : g.abOf[x] = ln.op} ELSE {}
+      vAb    == {<<"C02", "AbortedEntryApplied", <<a[1], a[2], a[3]>>>> : a \in {x \in g.abApp : x[3] \in newOK}}
+      V == vApply \cup vBarrier \cup vVerify \cup vDown \cup vMember \cup vAb
+  IN /\ g' = [g EXCEPT !.abOf = abOf2, !.abOK = @ \cup newOK,
+                       !.rcur[n] = IF ln.kind = "restore" /\ g.rcur[n] = ln.op THEN 0 ELSE @,
+                       !.acked = IF ln.kind = "apply" /\ ok THEN @ \cup {<<ln.op, i, l>>} ELSE @,
                        !.failed = IF ln.kind = "apply" /\ defFail THEN @ \cup {ln.arg} ELSE @,
                        !.probeOK = @ \/ (ln.kind = "apply" /\ ok /\ g.stopAt >= 0 /\ iv.t >= g.stopAt)]
      /\ Judge(V, {}) /\ Keep
